@@ -402,6 +402,9 @@ func (e *pathEnv) compute(v ssa.Value) *Path {
 	case *ssa.Lookup:
 		return &Path{Kind: "index", Args: []*Path{e.of(x.X), e.of(x.Index)}}
 	case *ssa.Slice:
+		if lst := e.arrayLiteral(x); lst != nil {
+			return lst
+		}
 		sp := &Path{Kind: "slice", Args: []*Path{e.base(x.X)}}
 		b := func(v ssa.Value) string {
 			if v == nil {
@@ -700,4 +703,47 @@ func riskyConv(from, to types.Type) bool {
 		return true
 	}
 	return size(tb) < size(fb)
+}
+
+// arrayLiteral: `new([N]T)[:]` whose N elements are each stored exactly once (a slice literal or the
+// packed arguments of a variadic call) is rendered by its elements: list(e0,…).
+func (e *pathEnv) arrayLiteral(sl *ssa.Slice) *Path {
+	al, ok := sl.X.(*ssa.Alloc)
+	if !ok || sl.Low != nil || sl.High != nil || sl.Max != nil || al.Parent() != e.fn {
+		return nil
+	}
+	at, ok := al.Type().(*types.Pointer).Elem().Underlying().(*types.Array)
+	if !ok || at.Len() == 0 || at.Len() > 16 {
+		return nil
+	}
+	elems := make([]ssa.Value, at.Len())
+	count := make([]int, at.Len())
+	for _, ref := range *al.Referrers() {
+		ia, ok := ref.(*ssa.IndexAddr)
+		if !ok {
+			continue
+		}
+		c, ok := ia.Index.(*ssa.Const)
+		if !ok {
+			return nil
+		}
+		i := int(c.Int64())
+		if i < 0 || i >= len(elems) {
+			return nil
+		}
+		for _, r2 := range *ia.Referrers() {
+			if st, ok := r2.(*ssa.Store); ok && st.Addr == ssa.Value(ia) {
+				elems[i] = st.Val
+				count[i]++
+			}
+		}
+	}
+	p := &Path{Kind: "call", Name: "list"}
+	for i := range elems {
+		if count[i] != 1 {
+			return nil
+		}
+		p.Args = append(p.Args, e.of(elems[i]))
+	}
+	return p
 }
